@@ -1,0 +1,9 @@
+//go:build !verif
+
+package vm
+
+import "github.com/go-python/gpython/py"
+
+const verifEnabled = false
+
+var VerifInstr func(frame *py.Frame, opcode OpCode, arg int32, addr int32)
